@@ -59,11 +59,14 @@ var Ops = map[string]Info{
 	"cdr": {Sharing, 1, true}, "rest": {Sharing, 1, true}, "nthcdr": {Sharing, 1, true},
 	"last": {Sharing, 1, true}, "last1": {Sharing, 1, true}, "member": {Sharing, 1, true},
 	"alias":  {Sharing, 1, true},
-	"remove": {Sharing, 1, true}, "remove-if": {Sharing, 1, true},
-	"remove-duplicates": {Sharing, 1, true},
+	// remove* : CLHS lets the result share with the argument; the property statement asks for more ("the list it returns is
+	// independent of its arguments", the only exception being tails by the language rules) and slip's remove is not
+	// documented as destructive or sharing, so the results are fresh
+	"remove": {Fresh, 1, true}, "remove-if": {Fresh, 1, true},
+	"remove-duplicates": {Fresh, 1, true},
 	// keyword variants: :from-end t :count 1 (the last match only), :start N :end M, remove-duplicates :from-end t
-	"remove-fe": {Sharing, 1, true}, "remove-if-fe": {Sharing, 1, true}, "remove-se": {Sharing, 1, true},
-	"remove-duplicates-fe": {Sharing, 1, true},
+	"remove-fe": {Fresh, 1, true}, "remove-if-fe": {Fresh, 1, true}, "remove-se": {Fresh, 1, true},
+	"remove-duplicates-fe": {Fresh, 1, true},
 	"delete-fe": {Destroy, 1, true}, "delete-se": {Destroy, 1, true},
 	"butlast":           {Fresh, 1, true}, "butlast1": {Fresh, 1, true}, "subseq": {Fresh, 1, true}, "subseq1": {Fresh, 1, true},
 	"copy-list": {Fresh, 1, true}, "copy-seq": {Fresh, 1, true}, "reverse": {Fresh, 1, true}, "mapcar": {Fresh, 1, true},
@@ -327,27 +330,20 @@ func (s *State) Plan(op Op) *Plan {
 		p.ResGroup = s.shareWith(op.A, p.Res)
 	case "remove":
 		p.Res = filter(a, func(x int) bool { return x != op.X })
-		p.ResGroup = s.shareWith(op.A, p.Res)
 	case "remove-if":
 		p.Res = filter(a, func(x int) bool { return x%2 != 0 })
-		p.ResGroup = s.shareWith(op.A, p.Res)
 	case "remove-duplicates":
 		p.Res = dedup(a)
-		p.ResGroup = s.shareWith(op.A, p.Res)
 	case "remove-fe":
 		p.Res = dropLast(a, func(x int) bool { return x == op.X })
-		p.ResGroup = s.shareWith(op.A, p.Res)
 	case "remove-if-fe":
 		p.Res = dropLast(a, func(x int) bool { return x%2 == 0 })
-		p.ResGroup = s.shareWith(op.A, p.Res)
 	case "remove-se":
 		p.N = mod(op.N, la+1)
 		p.M = p.N + mod(op.M, la-p.N+1)
 		p.Res = filterRange(a, p.N, p.M, func(x int) bool { return x != op.X })
-		p.ResGroup = s.shareWith(op.A, p.Res)
 	case "remove-duplicates-fe":
 		p.Res = dedupFirst(a)
-		p.ResGroup = s.shareWith(op.A, p.Res)
 	case "delete-fe", "delete-se":
 		if op.F == "delete-fe" {
 			p.Res = dropLast(a, func(x int) bool { return x == op.X })
